@@ -54,6 +54,38 @@ theorem plain_inj {a b : Name} (h : Var.plain a = Var.plain b) : a = b := by
   have := congrArg Var.name h
   exact this
 
+/-- a directed path of `G` is a directed path of the relabelled copy -/
+theorem plain_path_of_path (G : MG Name) (keys : List Var) {v t : Name}
+    (h : ReflTransGen (fun a b => (a, b) ∈ G.di) v t) :
+    ReflTransGen (keys.foldl MG.addNode (cfInit G [])).DiEdge (Var.plain v) (Var.plain t) := by
+  induction h with
+  | refl => exact .refl
+  | tail _ hbc ih =>
+    refine ih.tail ?_
+    unfold MG.DiEdge
+    rw [di_foldl_addNode]
+    exact (mem_di_cfInit G [] _ _).2 (Or.inl ⟨(_, _), hbc, rfl, rfl⟩)
+
+/-- … and, when it ends in a key, of the counterfactual graph (the ancestral part of the copy) -/
+theorem cf_path_of_path (G : MG Name) (keys anc : List Var)
+    (hanc : (keys.foldl MG.addNode (cfInit G [])).ancestorsInclusive keys = .ok anc) {v t : Name} (ht : Var.plain t ∈ keys)
+    (h : ReflTransGen (fun a b => (a, b) ∈ G.di) v t) :
+    ReflTransGen ((keys.foldl MG.addNode (cfInit G [])).subgraph anc).DiEdge (Var.plain v) (Var.plain t) := by
+  have hKwf : (keys.foldl MG.addNode (cfInit G [])).WF :=
+    wf_foldl_addNode _ _ (by unfold cfInit; exact MG.wf_fromEdges _ _ _)
+  have spec := ancestorsInclusive_spec _ hKwf keys anc hanc
+  induction h using ReflTransGen.head_induction_on with
+  | refl => exact .refl
+  | head hab hbt ih =>
+    rename_i a b
+    refine ReflTransGen.head ?_ ih
+    rw [diEdge_subgraph]
+    refine ⟨?_, (spec _).2 ⟨_, ht, plain_path_of_path G keys (ReflTransGen.head hab hbt)⟩,
+      (spec _).2 ⟨_, ht, plain_path_of_path G keys hbt⟩⟩
+    unfold MG.DiEdge
+    rw [di_foldl_addNode]
+    exact (mem_di_cfInit G [] _ _).2 (Or.inl ⟨(_, _), hab, rfl, rfl⟩)
+
 /-- **the separation facts**: the verdict on the counterfactual graph of a factual query, read in `G` -/
 theorem sep_facts_of_no_path (G : MG Name) (hG : G.WF) (hbl : ∀ e ∈ G.bi, e.1 ≠ e.2) (keys anc : List Var)
     (hanc : (keys.foldl MG.addNode (cfInit G [])).ancestorsInclusive keys = .ok anc)
